@@ -224,7 +224,7 @@ impl Campaign for C11c {
         "C11"
     }
     fn rule(&self) -> &'static str {
-        "seeded scenarios: pipelines of 2..8 requests with bodies from {none, 1, 1024, 1025, 5000, chunked small, chunked large}; (A) all bodies absent or <= 1024 bytes and the application collects all n requests before answering any; (B) a streamed body is read to its end (or the request answered/dropped unread) and the request kept for 1 virtual second while the successor must already be obtainable; non-trivial = (A) n >= 3 or a 1024-byte body present, (B) always; distinct = interleaving fingerprint"
+        "seeded scenarios: pipelines of 2..8 requests with bodies from {none, 1, 1024, 1025, 5000, chunked small, chunked large}; (A) all bodies absent or <= 1024 bytes and the application collects all n requests before answering any (one thread calling recv, one blocked thread per request, or one thread polling with try_recv around 0-2 unblock calls); (B) a streamed body is read to its end (or the request answered/dropped unread) and the request kept for 1 virtual second while the successor must already be obtainable; non-trivial = (A) n >= 3 or a 1024-byte body present, (B) always; distinct = interleaving fingerprint"
     }
     fn runs(&self, tier: Tier) -> u64 {
         match tier {
@@ -238,6 +238,7 @@ impl Campaign for C11c {
         let mut g = rng.sub("scenario");
         let sub_b = index % 2 == 1;
         let sub_c = index % 6 == 4;
+        let sub_d = index % 6 == 2;
         let n = g.usize(2, 8);
         let mut msgs = vec![];
         let streamed_at = if sub_b { g.usize(0, n - 2) } else { usize::MAX };
@@ -282,10 +283,33 @@ impl Campaign for C11c {
                 p.delay = SEC;
             }
             sc.receivers = (0..n).map(|_| Receiver { start_at: 0, calls: vec![RecvCall::Recv], dispatch: Dispatch::Inline }).collect();
+        } else if sub_d {
+            // the application collects by polling: try_recv once a millisecond, starting after the
+            // client has sent everything, more often than there are requests and unblock calls
+            sc.knobs.racy_time = false;
+            let u = g.usize(0, 2);
+            let mut ts: Vec<u64> = (0..u).map(|_| *g.pick(&[0u64, MS / 2, 2 * MS])).collect();
+            ts.sort();
+            for t in ts {
+                sc.driver.push(DriverStep::SleepUntil(t));
+                sc.driver.push(DriverStep::Unblock(1));
+            }
+            let sending = sc.conns[0].steps.iter().map(|s| if let ClientStep::Pause(p) = s { *p } else { 0 }).sum::<u64>();
+            let mut calls = vec![];
+            for _ in 0..g.usize(0, 3) {
+                calls.push(RecvCall::TryRecv);
+                calls.push(RecvCall::Sleep(MS / 2));
+            }
+            calls.push(RecvCall::Sleep(sending + SEC));
+            for _ in 0..n + u + 2 {
+                calls.push(RecvCall::TryRecv);
+                calls.push(RecvCall::Sleep(MS));
+            }
+            sc.receivers = vec![Receiver { start_at: 0, calls, dispatch: Dispatch::Hold(n) }];
         } else {
             sc.receivers = vec![Receiver { start_at: 0, calls: vec![RecvCall::Recv; n], dispatch: Dispatch::Hold(n) }];
         }
-        sc.note = format!("C11 index {} sub {} n={} {}", index, if sub_b { "B" } else if sub_c { "A (one thread per request)" } else { "A" }, n, kind);
+        sc.note = format!("C11 index {} sub {} n={} {}", index, if sub_b { "B" } else if sub_c { "A (one thread per request)" } else if sub_d { "A (polling collector)" } else { "A" }, n, kind);
         sc
     }
     fn check(&self, sc: &Scenario, out: &RunOut) -> Verdict {
@@ -381,7 +405,7 @@ impl Campaign for C18c {
         "C18"
     }
     fn rule(&self) -> &'static str {
-        "seeded scenarios: a request with or without Expect: 100-continue (any letter case), body length {0, 5, 1024, 1025, 5000}, handler program {answer without reading, as_reader once, three times, partial read, read to EOF}, a client that withholds the body until it sees the interim response or sends it regardless, optionally pipelined after/before ordinary requests, or followed by a second expecting request handled on another thread that answers while the first is still busy (the final response after an interim one must be the same request's); non-trivial = the expectation is present; distinct = interleaving fingerprint"
+        "seeded scenarios: a request with or without Expect: 100-continue (any letter case), body length {0, 5, 1024, 1025, 5000}, handler program {answer without reading, as_reader once, three times, partial read, read to EOF} finished by respond / raw writer / drop, a client that withholds the body until it sees the interim response or sends it regardless, optionally pipelined after/before ordinary requests, or followed by a second expecting request handled on another thread that answers while the first is still busy (the final response after an interim one must be the same request's); non-trivial = the expectation is present; distinct = interleaving fingerprint"
     }
     fn runs(&self, tier: Tier) -> u64 {
         match tier {
@@ -439,7 +463,13 @@ impl Campaign for C18c {
                 if !payload.is_empty() && (asks || !waits) {
                     steps.push(ClientStep::Send(B(payload)));
                 }
-                sc.programs.insert(id.clone(), Program { delay: 0, after: vec![], body: plan, delay2: 0, finish: Finish::Respond(RespSpec::simple(200, token_body(&id, 10))) });
+                // answered through respond (mostly), through the raw writer, or not at all (automatic 500)
+                let finish = match g.below(6) {
+                    0 => Finish::Writer { parts: split_parts(&literal_response(200, &token_body(&id, 10)), g.usize(1, 3), &mut g), flush: true },
+                    1 => Finish::Drop,
+                    _ => Finish::Respond(RespSpec::simple(*g.pick(&[200u16, 200, 403]), token_body(&id, 10))),
+                };
+                sc.programs.insert(id.clone(), Program { delay: 0, after: vec![], body: plan, delay2: 0, finish });
                 if waits && !asks && len > 0 {
                     // the body is never sent: nothing can follow on this connection
                     break;
